@@ -449,16 +449,21 @@ def run(ctx):
                 x = json.loads(h2[k]); x["s"] = "f"; h2.insert(k, json.dumps(x, separators=(",", ":")))
             else:
                 x = json.loads(h2[k]); x["r"]["e"] = "" if x["r"]["e"] else "err"; h2[k] = json.dumps(x, separators=(",", ":"))
-            p = ctx.path("c14-selftest-%s.ndjson" % mode)
+            n_mode = sum(1 for m, _ in jobs if m == mode)
+            p = ctx.path("c14-selftest-%s-%d.ndjson" % (mode, n_mode))
             open(p, "w").write("\n".join(h2) + "\n")
             jobs.append((mode, p))
-            break
+            if n_mode + 1 >= 3:      # up to three histories per corruption: in a particular history the
+                break                # corrupted trace may still be a behaviour (the event raced something)
     outs = par([(lambda m=m, p=p: ctx.tlc("TraceProperty", "TraceProperty.cfg", workers=1, dfs=True, env={"TRACE": p},
                                           count=False, name="selftest:" + m)) for (m, p) in jobs], 4)
+    verdicts = {}
     for (mode, _), r in zip(jobs, outs):
         mark, nn = hwm(r)
+        verdicts.setdefault(mode, []).append(mark != nn + 1)
+    for mode, lst in verdicts.items():      # a corruption counts as rejected if one of its histories is
         tried += 1
-        if mark != nn + 1:
+        if any(lst):
             caught += 1
         else:
             missed.append(mode)
